@@ -37,6 +37,7 @@ type Item struct {
 	Coq    string `json:"coq"`    // Coq definition name
 	As     string `json:"as"`     // Z (default) | N | string
 	Tag    string `json:"tag"`    // struct tag key to extract for struct_fields (optional, comma list)
+	Extra  map[string]any `json:"extra"` // free-form parameters for custom kinds
 }
 
 type Spec struct {
@@ -501,8 +502,15 @@ func extract(it Item) (string, error) {
 	case "fingerprint":
 		return "", nil
 	}
+	if f, ok := customKinds[it.Kind]; ok {
+		return f(it)
+	}
 	return "", fmt.Errorf("unknown kind %q", it.Kind)
 }
+
+// customKinds lets additional files (kinds_*.go) register further extraction kinds from init().
+// A kind returns the complete Coq text to emit for the item (one or more definitions).
+var customKinds = map[string]func(Item) (string, error){}
 
 func main() {
 	out := flag.String("out", "", "output dir (coq/Gen)")
